@@ -252,7 +252,26 @@ func (s *c09Sim) dump(nWants, nConns int) string {
 			closed = append(closed, i)
 		}
 	}
-	fmt.Fprintf(&b, " L=%s X=%d G=%s C=%s S=", c09JoinInts(lru), x, c09JoinInts(dip), c09JoinInts(closed))
+	// persistConn.reused (what shouldRetryRequest consults) of the connections this goroutine can
+	// see: idle-listed ones and those a request has received
+	visible := map[int]bool{}
+	for _, pc := range s.using {
+		visible[c09ConnID(pc)] = true
+	}
+	t.idleMu.Lock()
+	for _, l := range t.idleConn {
+		for _, pc := range l {
+			visible[c09ConnID(pc)] = true
+		}
+	}
+	t.idleMu.Unlock()
+	var reused []int
+	for i := 0; i < nConns; i++ {
+		if pc := s.pcs[i]; pc != nil && visible[i] && pc.isReused() {
+			reused = append(reused, i)
+		}
+	}
+	fmt.Fprintf(&b, " L=%s X=%d G=%s C=%s U=%s S=", c09JoinInts(lru), x, c09JoinInts(dip), c09JoinInts(closed), c09JoinInts(reused))
 	for i := 0; i < nWants; i++ {
 		if i >= len(s.wants) {
 			b.WriteByte('.')
@@ -392,7 +411,7 @@ func (s *c09Sim) idleListed(c int) bool {
 
 func TestVerif_C09_pool(t *testing.T) {
 	s := verifh.New(t, "C09", "pool",
-		"op sequences of 8..70 composite pool operations (getConn halves newWant/queueForIdleConn/queueForDial, dial success/failure through the real dialConnFor goroutine parked in a dial hook, getConn receive, wantConn.cancel, readLoop-at-EOF tryPutIdleConn, connection death, peer closing an idle connection with lazy removal, removeIdleConn, closeConnIfStillIdle, CloseIdleConnections) on 1..3 keys with MaxIdleConns 0..3, MaxIdleConnsPerHost -1..3, MaxConnsPerHost 0..3, DisableKeepAlives; mostly protocol-shaped flows plus out-of-protocol calls (queueForDial on a delivered want, double queueForIdleConn, cancel in every state); after EVERY op the real pool state (idleConn, idleConnWait, connsPerHost, connsPerHostWait, idleLRU order, closeIdle, dialsInProgress, closed connections, done wants) is compared with the Lean model; non-trivial = sequence that reused an idle connection or handed one to a waiter")
+		"op sequences of 8..70 composite pool operations (getConn halves newWant/queueForIdleConn/queueForDial, dial success/failure through the real dialConnFor goroutine parked in a dial hook, getConn receive, wantConn.cancel, readLoop-at-EOF tryPutIdleConn, connection death, peer closing an idle connection with lazy removal, removeIdleConn, closeConnIfStillIdle, CloseIdleConnections) on 1..3 keys with MaxIdleConns 0..3, MaxIdleConnsPerHost -1..3, MaxConnsPerHost 0..3, DisableKeepAlives; mostly protocol-shaped flows plus out-of-protocol calls (queueForDial on a delivered want, double queueForIdleConn, cancel in every state); after EVERY op the real pool state (idleConn, idleConnWait, connsPerHost, connsPerHostWait, idleLRU order, closeIdle, dialsInProgress, closed connections, persistConn.reused of visible connections, done wants) is compared with the Lean model; non-trivial = sequence that reused an idle connection or handed one to a waiter")
 	r := s.Rand()
 	n := verifh.N(4000, 60000)
 	nFail := 0
@@ -570,7 +589,7 @@ func TestVerif_C09_pool(t *testing.T) {
 			nClosed := 0
 			if j := strings.Index(o, " C="); j >= 0 {
 				f := strings.Fields(o[j+3:])
-				if len(f) > 0 && !strings.HasPrefix(f[0], "S=") {
+				if len(f) > 0 && !strings.HasPrefix(f[0], "S=") && !strings.HasPrefix(f[0], "U=") {
 					nClosed = strings.Count(f[0], ",") + 1
 				}
 			}
